@@ -61,6 +61,8 @@ var props = map[string]propCfg{
 	"C10": {World: "diode", Level: "exploration", QuickWall: 20, ThoroughSec: 600, Rule: ruleCommon},
 	"C11": {World: "diode", Level: "exploration", QuickWall: 20, ThoroughSec: 600, Rule: ruleCommon},
 	"C12": {World: "diode", Level: "exploration", QuickWall: 20, ThoroughSec: 600, Rule: ruleCommon},
+	"C05": {World: "c05", Level: "exploration", QuickWall: 25, ThoroughSec: 600, Rule: ruleCommon},
+	"C06": {World: "c06", Level: "exploration", QuickWall: 25, ThoroughSec: 600, Rule: ruleCommon},
 }
 
 func env() []string {
@@ -251,6 +253,7 @@ type Stats struct {
 type Output struct {
 	Stats      Stats          `json:"stats"`
 	Violations []ViolationRec `json:"violations"`
+	Findings   []ViolationRec `json:"findings"`
 	Real       []string       `json:"real"`
 	Stub       []string       `json:"stub"`
 }
@@ -517,6 +520,7 @@ func check(id, tier string, workers int, wallOverride float64) int {
 	// aggregate
 	agg := Stats{Strategies: map[string]int{}, Faults: map[string]int{}, Probes: map[string]int{}, SitesHit: map[string]int{}, SitesTotal: map[string]int{}}
 	var viols []ViolationRec
+	findingClause := map[string]bool{}
 	var realC, stubC []string
 	infra := false
 	for i, r := range results {
@@ -557,6 +561,12 @@ func check(id, tier string, workers int, wallOverride float64) int {
 			agg.Samples = o.Stats.Samples
 		}
 		viols = append(viols, o.Violations...)
+		for _, f := range o.Findings {
+			if !findingClause[f.Clause] {
+				findingClause[f.Clause] = true
+				viols = append(viols, f)
+			}
+		}
 	}
 	distinct := map[uint64]struct{}{}
 	for i := 0; i < workers; i++ {
@@ -661,6 +671,8 @@ var wantProbes = map[string][]string{
 	"C10": {"cas_failed", "collision_retry", "alert", "sink_stall_forever", "reentrant_alert_write", "pool_reuse_other_task"},
 	"C11": {"cas_failed", "collision_retry", "alert", "sink_slow"},
 	"C12": {"cas_failed", "cond_broadcast_no_waiter", "cond_broadcast_woke", "mutex_contended"},
+	"C05": {"pool_reuse_other_task", "pool_miss", "open_events_overlap", "pool_non_lifo"},
+	"C06": {"pool_reuse_other_task", "pool_miss", "pool_drop", "sink_overlap", "two_events_open", "sink_blocks_in_write", "sink_error", "global_level_flip", "mutex_contended"},
 }
 
 func writeEvidence(id, tier string, seed uint64, cfg propCfg, st Stats, distinct, nviol int, wallS, buildS float64, workers int, realC, stubC, unreached []string, nknown int) {
